@@ -345,6 +345,17 @@ func destEW(prop string, r *rng, emit func(string)) {
 func genEW(prop, tier string, r *rng, emit func(string)) {
 	thorough := tier == "thorough"
 	destEW(prop, r, emit)
+	if prop == "C12" {
+		// which element types each unary function accepts and what it computes there: the value
+		// sweeps of C17 for the unary family (float, complex and integer instances)
+		for _, dt := range []string{"i", "i8", "i16", "i32", "i64", "u", "u8", "u16", "u32", "u64", "f32", "f64", "c64", "c128"} {
+			for _, u := range []string{"neg", "square", "cube", "abs", "sign", "inv", "sqrt", "cbrt", "invsqrt", "exp", "log", "log2", "log10", "tanh"} {
+				if _, ok := valop(u, dt, "u"); ok {
+					emit(fmt.Sprintf("valop %s %s u", u, dt))
+				}
+			}
+		}
+	}
 	if prop == "C06" || prop == "C11" {
 		genMixDt(prop, emit)
 	}
